@@ -491,6 +491,21 @@ pub fn check_call(m: &Model, cfg: &FnCfg, plan: &CallPlan, obs: &CallObs, now0: 
             }
         }
     }
+    // several lookup outcomes can explain "the body ran" (async ttl window: live-but-stale or
+    // expired); prefer the one that also explains the invalidate_on consultations
+    if executed && cfg.has_inv_on {
+        for (m1, look) in &looks {
+            let exp: Vec<u64> = match look {
+                Look::Hit(s) if plan.inv_verdict => vec![*s],
+                Look::Hit(_) => continue,
+                _ => vec![],
+            };
+            if exp == obs.inv_seen {
+                chosen = Some((m1.clone(), *look));
+                break;
+            }
+        }
+    }
     let (m1, look) = match chosen {
         Some(x) => x,
         None => return Err(reason.expect("a reason")),
